@@ -57,4 +57,6 @@ def cycle(theta):
 
 @builtin
 def random(min, max):
-    return py_random.randint(min, max)
+    # The bounds may be the result of a division, a float such as 3.0; the
+    # integers within them are ceil(min)..floor(max).
+    return py_random.randint(math.ceil(min), math.floor(max))
